@@ -8,6 +8,7 @@ import (
 	"encoding/json"
 	"errors"
 	"fmt"
+	"hash/fnv"
 	"io"
 	"math"
 	"mime"
@@ -48,13 +49,15 @@ func init() {
 		run:    runC09,
 		rule: "c09.value: PRNG values of the harness schema (nested structs, all integer widths within +-2^53, finite floats, valid-UTF-8 strings incl. YAML-significant and non-ASCII ones, byte slices, string slices, maps, pointers, nil and empty values; record.Meta and a hand-written GenCode type; raw byte slices) x formats {JSON,CBOR,MsgPack,YAML,GenCode,RAW,AUTO} the value is representable in x compression {none,GZIP,AUTO}; " +
 			"c09.http: value x format x Accept header from a media-type grammar (supported, alias, wildcard and unsupported ranges, parameters, q-values, case, optional whitespace), request and response direction; " +
-			"c09.bytes: truncations / bit flips / splices of valid dumps, identifier-prefixed random bytes, gzip-wrapped garbage, well-formed compressed streams (bare, identified, nested, multi-member, four encodings) around empty / identifier-only / attack / truncated content, decoder length-header attacks, random bytes (<= 4 KiB) into 7 target types through Load, LoadAsFormat, DecompressAndLoad, MimeLoad. " +
+			"c09.seq: multi-step histories: k values dumped through Dump / DumpIndent / DumpAndCompress / MimeDump / DumpToHTTPRequest / DumpToHTTPResponse, returned slices kept without copying and hashed at once, then more dumps, then every blob re-hashed (a returned slice must never change) and loaded and compared with its own value; a part of the histories with two goroutines dumping concurrently; c09.bytes: truncations / bit flips / splices of valid dumps, identifier-prefixed random bytes, gzip-wrapped garbage, well-formed compressed streams (bare, identified, nested, multi-member, four encodings) around empty / identifier-only / attack / truncated content, decoder length-header attacks, random bytes (<= 4 KiB) into 7 target types through Load, LoadAsFormat, DecompressAndLoad, MimeLoad. " +
 			"distinct = distinct (class,input) pairs; non-trivial = at least one dump succeeded and its load was compared (value/http) or at least one entry point returned (bytes)",
 		finish: func(cfg vlib.Cfg, r *vlib.Report) {
 			r.Floor(r.Counter("roundtrips") >= int64(cfg.N(20000, 150000)), "roundtrips=%d", r.Counter("roundtrips"))
 			r.Floor(r.Counter("http_roundtrips") >= int64(cfg.N(4000, 40000)), "http_roundtrips=%d", r.Counter("http_roundtrips"))
 			r.Floor(r.Counter("hostile_inputs") >= int64(cfg.N(10000, 400000)), "hostile_inputs=%d", r.Counter("hostile_inputs"))
 			r.Floor(r.SeenCount("format_x_compression") >= 21, "format x compression combinations executed: %d of 21", r.SeenCount("format_x_compression"))
+			r.Floor(r.Counter("seq_blobs") >= int64(cfg.N(8000, 60000)), "seq_blobs=%d", r.Counter("seq_blobs"))
+			r.Floor(r.SeenCount("seq_entry_points") >= 6, "dump entry points in multi-step histories: %d of 6", r.SeenCount("seq_entry_points"))
 			r.Floor(r.SeenCount("http_paths") >= 3, "http paths executed: %d", r.SeenCount("http_paths"))
 			r.Assume("values are restricted to what every format can represent: valid UTF-8, finite floats, integers within +-2^53 (narrow widths: full range), no pointer to a nil slice/map")
 			r.Assume("RAW contract: Load reports RAW and returns ErrIsRaw; the payload is the bytes after the identifier")
@@ -76,6 +79,11 @@ func init() {
 		c09Bytes(c, in)
 	}
 	classes["c09.batch"] = c09Batch
+	classes["c09.seq"] = func(c *ctx, in []byte) {
+		if len(in) >= 8 {
+			c09Seq(c, binary.LittleEndian.Uint64(in))
+		}
+	}
 }
 
 // ---------------------------------------------------------------------------------
@@ -1162,6 +1170,210 @@ func c09HTTP(c *ctx, seed uint64) {
 }
 
 // ---------------------------------------------------------------------------------
+// c09.seq — multi-step histories: dump a batch, dump some more, only then load
+
+type c09SeqItem struct {
+	entry string // Dump | DumpIndent | DumpAndCompress | MimeDump | DumpToHTTPRequest | DumpToHTTPResponse
+	sub   *c09Subject
+	vseed uint64
+	f     uint8
+	comp  uint8
+	blob  []byte // the returned slice itself, never copied
+	hash  uint64
+	mime  string
+	req   *http.Request
+	rec   *httptest.ResponseRecorder
+	err   error
+}
+
+func c09Hash(b []byte) uint64 {
+	h := fnv.New64a()
+	_, _ = h.Write(b)
+	return h.Sum64() ^ uint64(len(b))<<48
+}
+
+// c09SeqDump performs one dump of the history.
+func c09SeqDump(r *vlib.Rand) *c09SeqItem {
+	it := &c09SeqItem{vseed: r.Uint64(), comp: c09NoComp}
+	switch x := r.Intn(12); {
+	case x < 2:
+		it.entry = "Dump"
+	case x < 3:
+		it.entry = "DumpIndent"
+	case x < 8:
+		it.entry = "DumpAndCompress"
+		it.comp = vlib.Pick(r, uint8(dsd.GZIP), dsd.AUTO)
+	case x < 9:
+		it.entry = "MimeDump"
+	case x < 10:
+		it.entry = "DumpToHTTPRequest"
+	default:
+		it.entry = "DumpToHTTPResponse"
+	}
+	isHTTP := strings.HasPrefix(it.entry, "Mime") || strings.HasPrefix(it.entry, "DumpToHTTP")
+	switch {
+	case isHTTP || it.entry == "DumpIndent" || r.Chance(3, 4):
+		it.sub = &c09Subjects[0]
+	case r.Bool():
+		it.sub = &c09Subjects[2]
+	default:
+		it.sub = &c09Subjects[4]
+	}
+	gen := func() any { return it.sub.gen(vlib.NewRand(it.vseed, "c09.sv", 0)) }
+	it.f = it.sub.formats[r.Intn(len(it.sub.formats))]
+	if isHTTP {
+		it.f = vlib.Pick(r, uint8(dsd.JSON), dsd.CBOR, dsd.MsgPack, dsd.YAML)
+	}
+	if it.entry == "DumpIndent" {
+		it.f = vlib.Pick(r, uint8(dsd.JSON), dsd.AUTO)
+	}
+	if it.f == dsd.YAML && len(c09YAMLHard(gen())) > 0 {
+		it.f = dsd.CBOR // the YAML dependency findings have their own class in c09.value
+	}
+	switch it.entry {
+	case "Dump":
+		it.blob, it.err = dsd.Dump(gen(), it.f)
+	case "DumpIndent":
+		it.blob, it.err = dsd.DumpIndent(gen(), it.f, "  ")
+	case "DumpAndCompress":
+		it.blob, it.err = dsd.DumpAndCompress(gen(), it.f, it.comp)
+	case "MimeDump":
+		it.blob, it.mime, _, it.err = dsd.MimeDump(gen(), c09MimeOf(it.f))
+	case "DumpToHTTPRequest":
+		it.req = httptest.NewRequest(http.MethodPost, "http://c09.test/seq", nil)
+		it.err = dsd.DumpToHTTPRequest(it.req, gen(), it.f)
+	case "DumpToHTTPResponse":
+		req := httptest.NewRequest(http.MethodGet, "http://c09.test/seq", nil)
+		req.Header.Set("Accept", c09MimeOf(it.f))
+		it.rec = httptest.NewRecorder()
+		it.err = dsd.DumpToHTTPResponse(it.rec, req, gen())
+	}
+	it.hash = c09Hash(it.blob)
+	return it
+}
+
+func c09MimeOf(f uint8) string {
+	for m, mf := range c09Mime {
+		if mf == f {
+			return m
+		}
+	}
+	return ""
+}
+
+// c09SeqCheck re-hashes and loads one item at the end of the history.
+func c09SeqCheck(c *ctx, in []byte, it *c09SeqItem, concurrent bool) {
+	b := c.b
+	mode := "sequential"
+	if concurrent {
+		mode = "concurrent"
+	}
+	bad := func(kind, what string) {
+		b.Violation("C09:"+kind+":"+it.entry, what, map[string]any{"class": "c09.seq", "input_hex": hex.EncodeToString(in), "entry": it.entry, "format": c09Name(it.f),
+			"compression": c09CompName(it.comp), "subject": it.sub.kind, "history": mode, "build": c.spec.Kind})
+	}
+	combo := fmt.Sprintf("%s(v, %s/%s)", it.entry, c09Name(it.f), c09CompName(it.comp))
+	if it.err != nil {
+		bad("seq-dump-error", fmt.Sprintf("%s failed inside a multi-step history: %v", combo, it.err))
+		return
+	}
+	b.Count("seq_blobs", 1)
+	b.Seen("seq_entry_points", it.entry)
+	if it.blob != nil && c09Hash(it.blob) != it.hash {
+		bad("returned-blob-changed", fmt.Sprintf("the slice returned by %s changed after the call returned (later dumps wrote into it): the caller's blob is not its own", combo))
+	}
+	want := it.sub.gen(vlib.NewRand(it.vseed, "c09.sv", 0))
+	got := it.sub.fresh()
+	var lf uint8
+	var lerr error
+	switch it.entry {
+	case "MimeDump":
+		lf, lerr = dsd.MimeLoad(it.blob, it.mime, got)
+	case "DumpToHTTPRequest":
+		lf, lerr = dsd.LoadFromHTTPRequest(it.req, got)
+	case "DumpToHTTPResponse":
+		lf, lerr = dsd.LoadFromHTTPResponse(it.rec.Result(), got)
+	default:
+		lf, lerr = dsd.Load(it.blob, got)
+	}
+	if it.f == dsd.RAW {
+		if !errors.Is(lerr, dsd.ErrIsRaw) || lf != dsd.RAW {
+			bad("seq-load-error", fmt.Sprintf("%s: after further dumps, Load returns (format %d, %v) for the RAW blob", combo, lf, lerr))
+			return
+		}
+		payload := it.blob[1:]
+		if it.comp != c09NoComp {
+			un, err := c09Gunzip(it.blob[1:])
+			if err != nil || len(un) < 1 {
+				bad("seq-load-error", fmt.Sprintf("%s: after further dumps the blob no longer gunzips: %v", combo, err))
+				return
+			}
+			payload = un[1:]
+		}
+		if !bytes.Equal(payload, want.([]byte)) {
+			bad("seq-value-differs", fmt.Sprintf("%s: after further dumps the blob holds other bytes than were dumped", combo))
+		}
+		return
+	}
+	switch {
+	case lerr != nil:
+		bad("seq-load-error", fmt.Sprintf("%s loaded only after further dumps fails: %v", combo, lerr))
+	case lf != c09Resolved(it.f):
+		bad("seq-wrong-format", fmt.Sprintf("%s loaded after further dumps reports format %s", combo, c09Name(lf)))
+	case !c09Equal(want, got):
+		bad("seq-value-differs", fmt.Sprintf("%s loaded after further dumps does not yield its own value: differs at %s", combo, c09Diff(reflect.ValueOf(want), reflect.ValueOf(got), "v")))
+	}
+}
+
+func c09Seq(c *ctx, seed uint64) {
+	b := c.b
+	in := u64le(seed)
+	b.Eval(1)
+	r := vlib.NewRand(seed, "c09.seq", 0)
+	concurrent := r.Chance(1, 4)
+	k, more := r.Range(2, 6), r.Range(1, 4)
+	c.call("c09.seq", in, func() {
+		var items []*c09SeqItem
+		if !concurrent {
+			for i := 0; i < k+more; i++ { // the batch, then a few more; nothing is loaded or copied in between
+				items = append(items, c09SeqDump(r))
+			}
+		} else {
+			// two goroutines dump their own values at the same time
+			var wg sync.WaitGroup
+			var mu sync.Mutex
+			for g := 0; g < 2; g++ {
+				gr := vlib.NewRand(seed, "c09.seq.g", uint64(g))
+				wg.Add(1)
+				go func() {
+					defer wg.Done()
+					defer func() {
+						if x := recover(); x != nil {
+							b.Violation("C09:panic:c09.seq:concurrent-dump", fmt.Sprintf("a dump panicked while another goroutine was dumping: %v", x),
+								map[string]any{"class": "c09.seq", "input_hex": hex.EncodeToString(in), "build": c.spec.Kind})
+						}
+					}()
+					var mine []*c09SeqItem
+					for i := 0; i < k+more; i++ {
+						mine = append(mine, c09SeqDump(gr))
+					}
+					mu.Lock()
+					items = append(items, mine...)
+					mu.Unlock()
+				}()
+			}
+			wg.Wait()
+			b.Count("seq_concurrent_histories", 1)
+		}
+		for _, it := range items {
+			c09SeqCheck(c, in, it, concurrent)
+		}
+		b.Max("seq_max_dumps_before_first_load", int64(len(items)))
+		b.Distinct([]byte("c09.seq"), in)
+	})
+}
+
+// ---------------------------------------------------------------------------------
 // c09.bytes — totality
 //
 // Hostile inputs are not decoded inside the shard process: a decoder that trusts a length
@@ -1651,6 +1863,12 @@ func runC09(c *ctx) {
 	}
 	if c09Srv != nil {
 		c09Srv.Close()
+	}
+	// (2b) multi-step histories
+	rs := c.rand("seq")
+	nsq := c.n(3200, 24000) / ns / div
+	for i := 0; i < nsq; i++ {
+		c09Seq(c, rs.Uint64())
 	}
 	// (3) hostile bytes, collected and decoded in grandchildren
 	// Builds that cannot run under an address-space limit are kept away from inputs that
